@@ -58,6 +58,7 @@ class Track:
         self.ln = {}         # node iterators: slot -> [object identity, valid]
         self.ll = {}         # link iterators
         self.wildcfg = False
+        self.built = set()   # alignment slots the history builds itself (alignment_init / add_word / populate)
         self.pos = 0         # position in the recording for streaming blocks
         self.speech = 0      # samples of the recording given in the current / last utterance
         self.cfg = {"jsgf": "none", "fsg": "none"}   # grammar keys of the decoder's configuration: none|good|bad
@@ -223,8 +224,8 @@ def gen_history(rng, stats, maxcalls=40, profile=None):
     objctr = [0]
     ops = []
     if EXTENDED:
-        profile = profile or rng.weighted([("mixed", 30), ("queries", 14), ("lifecycle", 10), ("outoforder", 10), ("longaudio", 8),
-                                           ("lattice", 10), ("config", 6), ("subobj", 5), ("twodec", 7)])
+        profile = profile or rng.weighted([("mixed", 28), ("queries", 14), ("lifecycle", 10), ("outoforder", 10), ("longaudio", 8),
+                                           ("lattice", 10), ("config", 6), ("subobj", 5), ("twodec", 7), ("overlong", 3)])
     else:
         profile = profile or rng.weighted([("mixed", 46), ("queries", 18), ("lifecycle", 14), ("outoforder", 14), ("longaudio", 8)])
     stats["profiles"][profile] = stats["profiles"].get(profile, 0) + 1
@@ -350,7 +351,78 @@ def gen_history(rng, stats, maxcalls=40, profile=None):
             else:
                 break   # the random tail continues (or frees) in the middle of the long utterance
 
-    if profile == "longaudio":
+    def kill_ali_of(k):
+        for j in list(t.ali):
+            if t.ali[j][0] == k:
+                t.ali[j] = (k, False)
+
+    def overlong_alignment():
+        """over-long alignment family: an alignment built by hand whose word / phone / state level is driven across
+        the capacity of its 16-bit counted vector (allocations grow 11, 21, ... so a fresh level holds 65530 entries):
+        `alignment_add_word` must return 0 and `alignment_populate(_ci)` -1 instead of wrapping the counter"""
+        k = rng.below(NSLOT)
+        emit("albuild %d" % k, "albuild")
+        t.aln.add(k); t.built.add(k)
+        cap = 65530
+        fam = rng.choice(["states", "states", "phones", "words", "words", "two-phone", "small", "regrow"])
+        stats["blocks"]["overlong-" + fam] = stats["blocks"].get("overlong-" + fam, 0) + 1
+        if fam == "states":      # 6-phone words, 3 states per phone: 3640 words fit, 3641 do not
+            emit(f"aladd {k} {cap // 18 + rng.choice([-1, 0, 1, 1, 2, 60])} forward", "aladd")
+        elif fam == "phones":    # 10921 words = 65526 phones fit the phone level, 10922 do not
+            emit(f"aladd {k} {cap // 6 + rng.choice([-1, 0, 1, 1, 2])} forward", "aladd")
+        elif fam == "words":     # one-phone words: the word level itself
+            emit(f"aladd {k} {cap + rng.choice([-1, 0, 1, 1, 6, 70, 5000])} a", "aladd")
+        elif fam == "two-phone":
+            emit(f"aladd {k} {cap // 2 + rng.choice([-1, 0, 1, 2])} go", "aladd")
+        elif fam == "small":
+            emit(f"aladd {k} {rng.choice([0, 1, 2, 11, 12])} {rng.choice(['a', 'go', 'forward'])}", "aladd")
+        else:                    # several additions and populations: the allocations of the emptied levels are kept
+            emit(f"aladd {k} {rng.choice([1000, 3000, 3640])} forward", "aladd")
+            emit(f"alpop {k} {rng.choice(['cd', 'ci'])}", "alpop")
+            emit(f"aladd {k} {rng.choice([1, 2, 700, 8000])} {rng.choice(['forward', 'go', 'a'])}", "aladd")
+        # (reaching 65k entries costs seconds under ASan - every tenth entry reallocates the level: one population
+        # as a rule, a second one now and then)
+        for _ in range(rng.choice([1, 1, 1, 1, 2])):
+            emit(f"alpop {k} {rng.choice(['cd', 'cd', 'ci'])}", "alpop")
+            kill_ali_of(k)
+            # look at what is there: first, last and past-the-end entries of every level, children of the last word
+            for lvl in rng.choice([["words"], ["phones", "states"], ["words", "phones", "states"]]):
+                j = free_slot(t.ali)
+                if j is None:
+                    break
+                emit(f"aliter {j} {k} {lvl}", "aliter")
+                t.ali[j] = (k, True)
+                pos = rng.choice([0, 1, 3639, 10920, 21845, 65529, 65530, 65535, 70000])
+                emit(f"aligoto {j} {pos}", "aligoto")
+                if rng.chance(0.6):
+                    j2 = free_slot(t.ali)
+                    if j2 is not None:
+                        emit(f"alichild {j2} {j}", "alichild")
+                        t.ali[j2] = (k, True)
+                        emit(f"alinext {j2}", "alinext")
+                for _ in range(rng.choice([0, 1, 3])):
+                    emit(f"alinext {j}", "alinext")
+                if rng.chance(0.5):
+                    emit(f"alifree {j}", "alifree")
+                    t.ali.pop(j, None)
+            if rng.chance(0.3):
+                emit(f"aladd {k} {rng.choice([1, 5, 100])} {rng.choice(['a', 'go'])}", "aladd")
+                kill_ali_of(k)
+
+    if profile == "overlong":
+        do_init(force_good=True)
+        if rng.chance(0.25):
+            # the alignment outlives its decoder (it retains the dictionary-to-senone mapping)
+            k0 = len(ops)
+            overlong_alignment()
+            ops.insert(k0 + 1, "free")
+            stats["calls"]["free"] = stats["calls"].get("free", 0) + 1
+            t.alive, t.refs = False, 0
+            t.invalidate("result"); t.invalidate("align")
+        else:
+            overlong_alignment()
+        n = min(len(ops) + rng.range(2, 10), max(maxcalls, len(ops) + 2))
+    elif profile == "longaudio":
         do_init(force_good=True)
         if rng.chance(0.3):
             emit("jsgf " + rng.choice(["go", "move", "star", "long"]), "jsgf-ok")
@@ -396,7 +468,8 @@ def gen_history(rng, stats, maxcalls=40, profile=None):
         nheld = len(sh["cfg"]) + len(sh["lmath"]) + len(sh["fe"]) + len(sh["feat"])
         w += [("cfgnew", 1), ("subuse", 2 * nheld), ("subfree", 2 * nheld), ("cfgk", 2 * len(sh["cfg"])),
               ("cfgwild", 1 * len(sh["cfg"])), ("cfgretain", len(sh["cfg"])),
-              ("mllrread", 1), ("mllrfree", 2 * len(sh["ml"]))]
+              ("mllrread", 1), ("mllrfree", 2 * len(sh["ml"])),
+              ("albuild", 1 if alive else 0), ("aladd", 3 * len(t.built)), ("alpop", 3 * len(t.built))]
         w += [("segnext", 6 * len(t.seg)), ("segfree", 2 * len(t.seg)), ("hypnext", 6 * len(t.hyp)),
               ("hypfree", 2 * len(t.hyp)), ("hypseg", 4 * len(t.hyp)), ("alinext", 6 * len(t.ali)),
               ("alichild", 4 * len(t.ali)), ("alifree", 2 * len(t.ali)), ("aligoto", 2 * len(t.ali)),
@@ -431,7 +504,7 @@ def gen_history(rng, stats, maxcalls=40, profile=None):
         if inutt and t.speech < 10000 and not t.full:
             w = [(a, b * 3 if a == "proc" else b) for a, b in w]
         if not EXTENDED:
-            NEW = ("cfgtyped", "logfile", "subretain", "reinitfeat", "mllrapply", "reinitcfg", "latbestk", "latprune", "lattrav",
+            NEW = ("albuild", "aladd", "alpop", "cfgtyped", "logfile", "subretain", "reinitfeat", "mllrapply", "reinitcfg", "latbestk", "latprune", "lattrav",
                    "lnode", "lnodenext", "lnodefree", "llink", "llinknext", "llinkfree", "cfgnew", "subuse", "subfree", "cfgk",
                    "cfgwild", "cfgretain", "mllrread", "mllrfree", "initcfg")
             w = [(a, 0 if a in NEW else b) for a, b in w]
@@ -779,10 +852,23 @@ def gen_history(rng, stats, maxcalls=40, profile=None):
                 k = rng.choice(sorted(sh["ml"]))
                 emit(f"mllrfree {k}", "mllrfree")
                 del sh["ml"][k]
+        elif c == "albuild":
+            fr = [k for k in range(NSLOT) if k not in t.aln]
+            if fr:
+                k = rng.choice(fr)
+                emit(f"albuild {k}", "albuild")
+                t.aln.add(k); t.built.add(k)
+        elif c in ("aladd", "alpop"):
+            k = rng.choice(sorted(t.built))
+            if c == "aladd":
+                emit(f"aladd {k} {rng.choice([0, 1, 2, 3, 10, 11, 40, 500])} {rng.choice(['a', 'go', 'forward', 'ten', 'meters'])}", "aladd")
+            else:
+                emit(f"alpop {k} {rng.choice(['cd', 'ci'])}", "alpop")
+            kill_ali_of(k)
         elif c == "alfree":
             k = rng.choice(sorted(t.aln))
             emit(f"alfree {k}", "alfree")
-            t.aln.discard(k)
+            t.aln.discard(k); t.built.discard(k)
             for j in list(t.ali):
                 if t.ali[j][0] == k:
                     t.ali[j] = (k, False)
@@ -1006,8 +1092,14 @@ def to_model(call, ret, st):
         return D + f"{op} {IDBASE[op[:3]] + int(w[1])} {b(not ptr)}"
     if op in ("segfree", "hypfree", "alifree"):
         return D + f"{op} {IDBASE[op[:3]] + int(w[1])}"
-    if op in ("latwalk", "latfree", "alfree"):
+    if op in ("latwalk", "latfree", "alfree", "albuild"):
         return D + f"{op} {w[1]}"
+    if op == "aladd":
+        plen = re.search(r"plen=(\d+)", ret)
+        return D + f"aladd {w[1]} {w[2]} {plen.group(1) if plen else 0}"
+    if op == "alpop":
+        ne = re.search(r"ne=(\d+)", ret)
+        return D + f"alpop {w[1]} {ne.group(1) if ne else 3}"
     if op == "nbest":
         return D + f"nbest {100 + int(w[1])} {b(g_after)} {b(ptr)}"
     if op == "hypseg":
